@@ -16,7 +16,7 @@ RULE = ("A fresh KNNSubgraph per case (public API only): n=2..30 (quick) / ..70 
         "create_arcs: per sample min(k,n-1) distinct neighbours != self, their distances == the ascending list of the smallest distances (multiset "
         "under ties), radius == their max, returned per-rank maxima and density bound == true maxima (1 if < 1e-5). calculate_pdf (k<=n-1): constant, "
         "min/max of sum(exp(-d/c))/(k+1) within 1e-12 rel., affine map to [1,MAX_DENSITY] (extremes exact, values within conditioning-aware "
-        "tolerance, order preserved), cost == density-1. eliminate_maxima_height for positive / zero / negative h. Non-trivial: n>=5, 2<=k<=n-2 and "
+        "tolerance, order preserved), cost == density-1; in 30% of the cases the density is re-estimated for a k' <= k after assigning the bound of rank k' (the unsupervised models' sequence). eliminate_maxima_height for positive / zero / negative h. Non-trivial: n>=5, 2<=k<=n-2 and "
         "an insertion that displaces an earlier candidate; distinct = case hash.")
 ASSUMPTIONS = [
     "one arc creation on a fresh subgraph (the code never resets the density bound between calls - outside the statement)",
@@ -27,7 +27,7 @@ BUDGET = {
     "quick": {"cases": 12000, "seconds": 90, "shards": 8},
     "thorough": {"cases": 300000, "seconds": 900, "shards": 16},
 }
-REQUIRED_OBS = ["repeated_identifier_cases", "exhaustive_small_graph_cases", "instance_history_cases", "arcs_checked", "pdf_checked", "k>n-1", "tied_kth_distance", "eliminate_positive", "eliminate_nonpositive", "all_equal_density",
+REQUIRED_OBS = ["repeated_identifier_cases", "pdf_with_smaller_k", "exhaustive_small_graph_cases", "instance_history_cases", "arcs_checked", "pdf_checked", "k>n-1", "tied_kth_distance", "eliminate_positive", "eliminate_nonpositive", "all_equal_density",
                 "pre_computed_cases", "displacing_insertion", "bound_fallback_to_1"]
 MIN_NONTRIVIAL = 150
 
@@ -45,6 +45,8 @@ def generate(rng, tier, idx):
         X = X * 1e-7
     k = int(rng.choice([1, 2, 3, max(1, n - 2), max(1, n - 1), n, n + 2, int(rng.integers(1, n + 3))]))
     case = {"X": X.tolist(), "k": k, "metric": name, "gclass": gc, "pre": None, "history": bool(rng.random() < 0.2),
+            # the unsupervised models' own sequence: arcs once for max_k, then per candidate k' <= max_k the bound is assigned and the density re-estimated
+            "pdf_k": int(rng.integers(1, min(k, n - 1) + 1)) if rng.random() < 0.3 and n >= 3 else None,
             "h": [float(rng.choice([0.5, 1.0, 10.0, 999.0, 2000.0])), 0.0, -1.0]}
     if rng.random() < 0.25:
         N = n + int(rng.integers(0, 5))
@@ -149,6 +151,14 @@ def check(case):
         res.violate("arcs", "C12/density-bound", f"density bound {sg.density!r} != true maximum neighbour distance {bound!r}")
         return res
 
+    pdf_k = case.get("pdf_k")
+    if pdf_k and pdf_k <= min(k, n - 1):
+        b2 = float(true_rank_max[pdf_k - 1])
+        if b2 >= 0.00001:
+            kk = k = pdf_k
+            bound = b2
+            sg.density = maxd[pdf_k - 1]
+            res.see("pdf_with_smaller_k")
     if k <= n - 1:
         call = safe_call(sg.calculate_pdf, k, fn, flag, D)
         if not call.ok:
